@@ -135,6 +135,12 @@ func (a *c14Agg) add(sc *c14Scenario, fault *c14Fault, s *vk.Sched, out *c14Outc
 	if out.Stalls > 0 {
 		run.Count("sched_stalls", int64(out.Stalls))
 	}
+	if out.WBMissing > 0 {
+		run.Count("writeback_expected_but_absent", int64(out.WBMissing))
+	}
+	if out.Ungated > 0 {
+		run.Count("unannounced_background_tier_calls", int64(out.Ungated))
+	}
 	if out.Incomplete {
 		run.Count("sched_incomplete", 1)
 		return
